@@ -1,3 +1,3 @@
 # C16 test double for a source-able environment setup script
-/stubs/_sourced "${BASH_SOURCE[0]}"
+"$C16_ROOT/stubs/_sourced" "${BASH_SOURCE[0]}"
 return $?
